@@ -9,6 +9,8 @@ import (
 	"io"
 	"net"
 	"path/filepath"
+	"sync"
+	"sync/atomic"
 	"time"
 )
 
@@ -268,9 +270,26 @@ func verifClearLog(s *storage) {
 
 func verifCompact(r *Raft) {
 	if VerifEmit != nil {
-		verifEmitR(r, &VerifEv{K: "compact", Idx: r.log.PrevIndex(), St: verifState(r)})
+		ev := &VerifEv{K: "compact", Idx: r.log.PrevIndex(), St: verifState(r)}
+		// replication goroutines of this node that have not returned yet, and
+		// replications its leader state still knows of
+		if v, ok := verifReplsRunning.Load(r); ok {
+			ev.A = uint64(atomic.LoadInt64(v.(*int64)))
+		}
+		if r.state == Leader && r.ldr != nil {
+			ev.B = uint64(len(r.ldr.repls))
+		}
+		verifEmitR(r, ev)
 	}
 	verifPointR(r, "compact")
+}
+
+var verifReplsRunning sync.Map // *Raft -> *int64
+
+// verifReplRunning counts the replication goroutines of a node.
+func verifReplRunning(r *Raft, d int64) {
+	v, _ := verifReplsRunning.LoadOrStore(r, new(int64))
+	atomic.AddInt64(v.(*int64), d)
 }
 
 func verifResultName(res rpcResult) string {
